@@ -50,6 +50,7 @@ func init() {
 			ruleRecordFilledByFullRead(c)
 			ruleDataWithReaderError(c)
 			ruleHeaderLoopExits(c)
+			ruleHeaderSplitAtFirstColon(c)
 			ruleRawDecoderReadsStream(c)
 			ruleReaderAcceptsDataEOF(c)
 			ruleParsedRecordNotDiscarded(c)
